@@ -168,12 +168,16 @@ def cbin_check(case):
     mtscomp.compress(fbin, os.path.join(d, stem + ".cbin"), os.path.join(d, stem + ".ch"), sample_rate=ch_rate, n_channels=nc,
                      dtype=np.int16, chunk_duration=(4 if ns_c < 1000 else 1000) / fs, n_threads=1, check_after_compress=False, quiet=True)
     os.unlink(fbin)
+    linked = (ns_c + delta + fi) % 3 == 0
+    if linked:
+        # a third of the cases: the compressed stream is a symbolic link into a data store (its .ch and .meta are regular files next to the link)
+        synth.link_into_store(os.path.join(d, stem + ".cbin"))
     v = []
     try:
         sr = spikeglx.Reader(os.path.join(d, stem + ".cbin"), sort=False, ignore_warnings=bool(iw))
     except Exception as e:
-        return Res([("cbin:open:%s" % type(e).__name__, "opening a cbin of %d samples whose meta claims %d raised %s: %s"
-                     % (ns_c, claimed, type(e).__name__, e))], o="openfail")
+        return Res([("cbin:open:%s" % type(e).__name__, "opening a cbin of %d samples whose meta claims %d%s raised %s: %s"
+                     % (ns_c, claimed, " (the .cbin is a symbolic link into a data store)" if linked else "", type(e).__name__, e))], o="openfail")
     try:
         if sr.ns != ns_c or tuple(sr.shape) != (ns_c, nc):
             v.append(("cbin:ns" + (":ignore_warnings" if iw else ""), "ns=%r shape=%r but the compressed stream holds %d samples (meta claims %d, ignore_warnings=%s)"
@@ -193,7 +197,7 @@ def cbin_check(case):
                 break
     finally:
         sr.close()
-    return Res(v, o=(np.sign(delta),), nt=delta != 0, tr=6)
+    return Res(v, o=(np.sign(delta), linked), nt=delta != 0, tr=6)
 
 
 # ------------------------------------------------------------------ other sample formats: bytes per sample is part of the frame size
